@@ -867,7 +867,9 @@ pub fn observe_module(
     }
   }
   rec["diag"] = json!(ws.diagnostics().unwrap_or_else(|p| vec![format!("panic: {p}")]));
-  let mut pool: Vec<usize> = (0..occs.len()).filter(|i| occs[*i].kind != "use" && occs[*i].kind != "sig").collect();
+  // (VH_SCOPE_RENAME_SIG=1, development aid: also rename the parameters of method signatures)
+  let with_sig = std::env::var("VH_SCOPE_RENAME_SIG").is_ok();
+  let mut pool: Vec<usize> = (0..occs.len()).filter(|i| occs[*i].kind != "use" && (with_sig || occs[*i].kind != "sig")).collect();
   let mut chosen: Vec<usize> = vec![];
   while chosen.len() < max_renames && !pool.is_empty() {
     let k = rng.below(pool.len());
